@@ -897,7 +897,17 @@ pub fn parse_query(iter: &mut Iter<'_>) -> Query {
             };
             let right = match iter.peek().cloned().unwrap() {
                 Token::Eof => Conversion::None,
-                Token::Degree(deg) => Conversion::Degree(deg),
+                Token::Degree(deg) => {
+                    // A scale is a conversion of its own only when it is
+                    // the whole target; `degC / s` is a compound unit.
+                    let mut rest = iter.clone();
+                    rest.next();
+                    if let Some(Token::Eof) = rest.peek() {
+                        Conversion::Degree(deg)
+                    } else {
+                        Conversion::Expr(parse_eq(iter))
+                    }
+                }
                 Token::Plus | Token::Minus => {
                     let mut old = iter.clone();
                     if let Some(off) = parse_offset(iter) {
